@@ -131,7 +131,8 @@ MODELLED = ["none", "manifest-path-bad", "state-path-bad", "manifest-path-dup", 
             "benign-upper-digests"]
 ORACLE_ONLY = ["drop-key", "wrong-type", "created-format", "user-no-name", "message-type", "type-uri", "algorithm", "id-empty",
                "fixity-bad-path", "fixity-dup-digest", "fixity-wrong-digest", "fixity-unknown-path", "dup-json-key", "version-not-object", "state-not-lists",
-               "manifest-path-outside-version", "manifest-path-outside-content", "version-block-drop-key"]
+               "manifest-path-outside-version", "manifest-path-outside-content", "version-block-drop-key",
+               "type-other-version", "decl-other-version"]
 
 
 def edit(rng, base, kind):
@@ -242,6 +243,11 @@ def edit(rng, base, kind):
         inv["versions"][v]["message"] = rng.choice([5, ["m"], {"m": 1}, None])
     elif kind == "type-uri":
         inv["type"] = rng.choice(["https://ocfl.io/1.2/spec/#inventory", "https://ocfl.io/1.0/spec/", "ocfl", "https://ocfl.io/1.0/spec/#inventory ", ""])
+    elif kind == "type-other-version":
+        other = "1.0" if base.spec == "1.1" else "1.1"
+        inv["type"] = "https://ocfl.io/%s/spec/#inventory" % other; desc += " " + other
+    elif kind == "decl-other-version":
+        desc += " (declaration of the other OCFL version)"      # the caller materialises with the other declaration
     elif kind == "algorithm":
         inv["digestAlgorithm"] = rng.choice(["md5", "sha1", "SHA512", "blake2b-512", "sha-512", ""])
     elif kind == "id-empty":
